@@ -32,7 +32,7 @@ def split_progs(text):
     return progs
 
 
-def run_harness(progfile, nprogs, timeout=600, extra=None):
+def run_harness(progfile, nprogs, timeout=600, extra=None, cap=3000):
     """Runs the harness over the file, restarting after a crash/abort/timeout.
     Returns (dict index -> {"lines", "done", "crash"}, raw_text)."""
     results = {}
@@ -40,7 +40,7 @@ def run_harness(progfile, nprogs, timeout=600, extra=None):
     raw = []
     # line numbers: the harness numbers programs by line index in the file
     while True:
-        cmd = [HARNESS, "run", progfile, "--skip", str(skip)] + (extra or [])
+        cmd = [HARNESS, "run", progfile, "--skip", str(skip), "--cap", str(cap)] + (extra or [])
         try:
             p = subprocess.run(cmd, capture_output=True, text=True, timeout=timeout, env=clean_env())
             out, code, timed = p.stdout, p.returncode, False
